@@ -575,3 +575,489 @@ def corpus_c05(tier):
     n = 16 if tier == "quick" else 120
     fixed = fam_latch_fixed()
     return fixed + [fam_latch(i) for i in range(n)]
+
+
+# ======================================================================================
+#  C06 entities driven by conditions
+# ======================================================================================
+
+E_INPUTS = [("a", "signal-A", 10007), ("b", "signal-B", 10009), ("c", "iron-plate", 10037)]
+ENABLE_PROTOS = ["small-lamp", "inserter", "transport-belt", "pump", "power-switch", "train-stop", "assembling-machine-1", "fast-inserter", "offshore-pump"]
+
+
+def _ent_prog(name, body, fam="entity", inputs=E_INPUTS):
+    return {"id": name, "family": fam, "stmts": [["input", n, t, d] for (n, t, d) in inputs] + body, "kind": "stateless"}
+
+
+def fam_entity_fixed():
+    A, B, C = V("a"), V("b"), V("c")
+    progs = []
+
+    def lamp(i, x=None, y=0, proto="small-lamp"):
+        return ["place", f"e{i}", proto, K(x if x is not None else 3 * i), K(y), None]
+
+    conds = {
+        "plain": A,
+        "gt": ["cmp", ">", A, K(10)],
+        "le": ["cmp", "<=", A, K(-3)],
+        "eq": ["cmp", "==", C, K(7)],
+        "ne": ["cmp", "!=", A, K(0)],
+        "sigsig": ["cmp", ">", A, B],
+        "sum": ["cmp", ">", ["bin", "+", A, B], K(10)],
+        "and": ["and", ["cmp", ">", A, K(0)], ["cmp", "<", B, K(9)]],
+        "or": ["or", ["cmp", ">", A, K(0)], ["cmp", "<", B, K(9)]],
+        "arith": ["bin", "-", A, K(5)],
+        "mod": ["cmp", "<", ["bin", "%", A, K(10)], K(5)],
+        "not": ["not", A],
+        "proj": ["proj", ["cmp", ">=", A, K(3)], "signal-X"],
+    }
+    for nm, cond in conds.items():
+        progs.append(_ent_prog(f"efixed-lamp-{nm}", [lamp(0), ["enable", "e0", cond]], fam="fixed"))
+    for proto in ENABLE_PROTOS:
+        progs.append(_ent_prog(f"efixed-{proto}-gt", [["place", "e0", proto, K(0), K(0), None], ["enable", "e0", ["cmp", ">", A, K(10)]]], fam="fixed"))
+        progs.append(_ent_prog(f"efixed-{proto}-expr", [["place", "e0", proto, K(-4), K(2), None], ["enable", "e0", ["cmp", ">", ["bin", "+", A, B], K(10)]]], fam="fixed"))
+    # shared sources, several entities
+    progs.append(_ent_prog("efixed-shared-decider", [["sig", "f", ["cmp", ">", A, K(10)]], lamp(0), lamp(1), ["enable", "e0", V("f")], ["enable", "e1", V("f")]], fam="fixed"))
+    progs.append(_ent_prog("efixed-shared-decider-other-use", [["sig", "f", ["cmp", ">", A, K(10)]], lamp(0), ["enable", "e0", V("f")], ["sig", "o", ["proj", ["bin", "+", V("f"), B], "signal-X"]]], fam="fixed"))
+    progs.append(_ent_prog("efixed-row", [lamp(i, x=i) for i in range(5)] + [["enable", f"e{i}", ["cmp", ">", A, K(i * 2)]] for i in range(5)], fam="fixed"))
+    progs.append(_ent_prog("efixed-row-expr", [lamp(i, x=2 * i) for i in range(4)] + [["enable", f"e{i}", ["cmp", ">=", ["bin", "*", A, K(2)], K(i)]] for i in range(4)], fam="fixed"))
+    progs.append(_ent_prog("efixed-two-conds-same-signal", [lamp(0), lamp(1), ["enable", "e0", ["cmp", ">", A, K(10)]], ["enable", "e1", ["cmp", "<", A, K(5)]]], fam="fixed"))
+    progs.append(_ent_prog("efixed-const-true", [lamp(0), ["enable", "e0", K(1)], lamp(1), ["enable", "e1", ["cmp", ">", A, K(1)]]], fam="fixed"))
+    # entity outputs (.output)
+    chest = ["place", "ch", "steel-chest", K(0), K(3), None]
+    tank = ["place", "tk", "storage-tank", K(4), K(3), None]
+    progs.append(_ent_prog("efixed-chest-all", [chest, ["bun", "co", ["out", "ch"]], lamp(0), ["enable", "e0", ["cmp", ">", ["all", V("co")], K(100)]]], fam="fixed"))
+    progs.append(_ent_prog("efixed-chest-any", [chest, ["bun", "co", ["out", "ch"]], lamp(0), ["enable", "e0", ["cmp", "<", ["any", V("co")], K(5)]]], fam="fixed"))
+    for op in CMPS:
+        progs.append(_ent_prog(f"efixed-chest-all-{op}", [chest, ["bun", "co", ["out", "ch"]], lamp(0), ["enable", "e0", ["cmp", op, ["all", V("co")], K(10)]]], fam="fixed"))
+        progs.append(_ent_prog(f"efixed-chest-any-{op}", [chest, ["bun", "co", ["out", "ch"]], lamp(0), ["enable", "e0", ["cmp", op, ["any", V("co")], K(10)]]], fam="fixed"))
+    progs.append(_ent_prog("efixed-chest-sel", [chest, ["bun", "co", ["out", "ch"]], lamp(0), ["enable", "e0", ["cmp", ">", ["sel", V("co"), "iron-plate"], K(50)]]], fam="fixed"))
+    progs.append(_ent_prog("efixed-chest-sel-plus-input", [chest, ["bun", "co", ["out", "ch"]], lamp(0), ["enable", "e0", ["cmp", ">", ["bin", "+", ["sel", V("co"), "iron-plate"], C], K(50)]]], fam="fixed"))
+    progs.append(_ent_prog("efixed-chest-arith", [chest, ["bun", "co", ["out", "ch"]], ["bun", "dbl", ["bin", "*", V("co"), K(2)]]], fam="fixed"))
+    progs.append(_ent_prog("efixed-chest-two-lamps", [chest, ["bun", "co", ["out", "ch"]], lamp(0), lamp(1), ["enable", "e0", ["cmp", ">", ["all", V("co")], K(10)]], ["enable", "e1", ["cmp", ">", ["any", V("co")], K(10)]]], fam="fixed"))
+    progs.append(_ent_prog("efixed-two-chests-merge", [chest, ["place", "ch2", "steel-chest", K(2), K(3), None], ["bun", "both", ["bundle", [["out", "ch"], ["out", "ch2"]]]], ["bun", "r", ["bin", "+", V("both"), K(0)]]], fam="fixed"))
+    progs.append(_ent_prog("efixed-loader-shape", [chest, ["place", "ch2", "steel-chest", K(2), K(3), None], ["place", "ch3", "steel-chest", K(4), K(3), None],
+                                                   ["bun", "tot", ["bundle", [["out", "ch"], ["out", "ch2"], ["out", "ch3"]]]],
+                                                   ["bun", "avg", ["bin", "/", V("tot"), K(3)]],
+                                                   ["bun", "d1", ["bundle", [["bin", "*", ["out", "ch"], K(-1)], V("avg")]]],
+                                                   ["place", "i1", "inserter", K(0), K(5), None], ["enable", "i1", ["cmp", ">", ["any", V("d1")], K(0)]]], fam="fixed"))
+    progs.append(_ent_prog("efixed-tank", [tank, ["bun", "fl", ["out", "tk"]], ["place", "p0", "pump", K(0), K(0), None], ["enable", "p0", ["cmp", "<", ["sel", V("fl"), "water"], K(20000)]]], fam="fixed"))
+    return progs
+
+
+def fam_entity(index):
+    rnd = random.Random(f"entity-{index}")
+    g = ExprGen(rnd, ["a", "b", "c"])
+    n = rnd.choice([1, 1, 2, 3])
+    body = []
+    shared = None
+    if rnd.random() < 0.3:
+        body.append(["sig", "f", g.cmp(1)])
+        shared = V("f")
+        g.names.append("f")
+    for i in range(n):
+        proto = rnd.choice(["small-lamp", "small-lamp", "inserter", "transport-belt", "assembling-machine-1", "train-stop"])
+        body.append(["place", f"e{i}", proto, K(4 * i + rnd.choice([0, -8])), K(rnd.choice([0, 2, -3])), None])
+        kind = rnd.choice(["inl", "inl", "sig", "expr", "expr", "shared"])
+        if kind == "shared" and shared is not None:
+            cond = shared
+        elif kind == "inl":
+            cond = ["cmp", rnd.choice(CMPS), g.leaf_sig(), K(rnd.choice(SMALL + [-2147483648, 2147483647]))]
+        elif kind == "sig":
+            cond = g.leaf_sig()
+        else:
+            cond = g.boolish(rnd.choice([1, 2]))
+        body.append(["enable", f"e{i}", cond])
+    if rnd.random() < 0.3:
+        body.append(["sig", "o", ["proj", g.sig(1), "signal-X"]])
+    return _ent_prog(f"entity-{index:04d}", body)
+
+
+def corpus_c06(tier):
+    n = 30 if tier == "quick" else 200
+    return fam_entity_fixed() + [fam_entity(i) for i in range(n)]
+
+
+# ======================================================================================
+#  C20 naming / anchors
+# ======================================================================================
+
+
+def fam_naming_fixed():
+    A, B, C = V("a"), V("b"), V("c")
+    ins3 = [["input", "a", "signal-A", 10007], ["input", "b", "signal-B", 10009], ["input", "c", "iron-plate", 10037]]
+    progs = []
+
+    def add(name, body, ins=ins3):
+        progs.append({"id": f"nfixed-{name}", "family": "fixed", "stmts": list(ins) + body, "kind": "stateless", "params": {"naming": True}})
+
+    add("arith", [["sig", "o", ["bin", "+", A, B]]])
+    add("decider", [["sig", "o", ["cmp", ">", A, K(3)]]])
+    add("cond", [["sig", "o", ["cond", ["cmp", ">", A, K(3)], C]]])
+    add("const", [["sig", "o", ["lit", "signal-X", K(42)]]])
+    add("const-untyped", [["sig", "o", K(42)]])
+    add("alias-input", [["sig", "o", A]])
+    add("alias-chain", [["sig", "o", ["bin", "*", A, K(3)]], ["sig", "p", V("o")]])
+    add("alias-two", [["sig", "m", ["bin", "*", A, K(3)]], ["sig", "p", V("m")], ["sig", "q", V("m")]])
+    add("consumed", [["sig", "m", ["bin", "*", A, K(3)]], ["sig", "o", ["bin", "+", V("m"), B]]])
+    add("consumed-and-not", [["sig", "m", ["bin", "*", A, K(3)]], ["sig", "o", ["bin", "+", V("m"), B]], ["sig", "p", ["bin", "-", A, B]]])
+    add("cse-dup", [["sig", "p", ["bin", "*", A, K(3)]], ["sig", "q", ["bin", "*", A, K(3)]]])
+    add("cse-dup-decider", [["sig", "p", ["cond", ["cmp", ">", A, K(0)], A]], ["sig", "q", ["cond", ["cmp", ">", A, K(0)], K(1)]]])
+    add("cse-dup-3", [["sig", "p", ["bin", "+", A, B]], ["sig", "q", ["bin", "+", A, B]], ["sig", "r", ["proj", ["bin", "+", A, B], "signal-X"]]])
+    add("wire-merge", [["sig", "o", ["bin", "+", A, V("d")]]], ins=ins3 + [["input", "d", "signal-A", 10039]])
+    add("bundle", [["bun", "o", ["bundle", [A, C]]]])
+    add("bundle-op", [["bun", "b0", ["bundle", [A, C]]], ["bun", "o", ["bin", "*", V("b0"), K(2)]]])
+    add("bundle-const", [["bun", "o", ["bundle", [["lit", "signal-X", K(4)], ["lit", "coal", K(5)]]]]])
+    add("unused-input", [["sig", "o", ["bin", "+", A, K(1)]]])
+    add("func-ret", [["func", "f", [["Signal", "x"]], [], ["bin", "+", V("x"), K(1)]], ["sig", "o", ["call", "f", [A]]]])
+    add("func-ret-two", [["func", "f", [["Signal", "x"]], [["sig", "t", ["bin", "*", V("x"), K(2)]]], ["bin", "+", V("t"), K(1)]], ["sig", "o", ["call", "f", [A]]], ["sig", "p", ["call", "f", [B]]]])
+    add("func-consumes", [["func", "f", [["Signal", "x"]], [], ["bin", "+", V("x"), K(1)]], ["sig", "m", ["bin", "*", A, K(2)]], ["sig", "o", ["call", "f", [V("m")]]]])
+    add("loop-consumes", [["sig", "m", ["bin", "*", A, K(2)]], ["for", "i", ["range", 0, 2, None], [["place", "l", "small-lamp", V("i"), K(0), None], ["enable", "l", ["cmp", ">", V("m"), V("i")]]]]])
+    add("enable-consumes", [["sig", "m", ["bin", "*", A, K(2)]], ["place", "l", "small-lamp", K(0), K(0), None], ["enable", "l", ["cmp", ">", ["bin", "+", V("m"), B], K(4)]]])
+    add("many", [["sig", f"o{i}", ["proj", ["bin", "+", A, K(i)], f"signal-{chr(ord('K') + i)}"]] for i in range(6)])
+    add("int-not-output", [["int", "k", K(5)], ["sig", "o", ["bin", "*", A, V("k")]]])
+    return progs
+
+
+def corpus_c20(tier):
+    n = 25 if tier == "quick" else 150
+    cases = fam_naming_fixed()
+    for i in range(n):
+        c = fam_expr(1000 + i)
+        c = dict(c, id=f"nexpr-{i:04d}", params={"naming": True})
+        cases.append(c)
+    for i in range(n // 2):
+        c = fam_bundle(1000 + i)
+        c = dict(c, id=f"nbundle-{i:04d}", params={"naming": True})
+        cases.append(c)
+    return cases
+
+
+# ======================================================================================
+#  C10 optimisation on/off, C12 independence, C13 fresh signals (twins)
+# ======================================================================================
+
+OPT = {"tag": "opt", "optimize": True}
+NOOPT = {"tag": "noopt", "optimize": False}
+
+
+def _opt_pair(stmts):
+    return [{"a": {"stmts": stmts, "build": OPT}, "b": {"stmts": stmts, "build": NOOPT}, "tag": "opt-vs-noopt"}]
+
+
+def fam_opt_fixed():
+    A, B, C = V("a"), V("b"), V("c")
+    ins3 = [["input", "a", "signal-A", 10007], ["input", "b", "signal-B", 10009], ["input", "c", "iron-plate", 10037]]
+    progs = []
+
+    def add(name, body, ins=ins3, **params):
+        progs.append({"id": f"ofixed-{name}", "family": "fixed", "kind": "equiv", "pairs": _opt_pair(list(ins) + body), "params": params})
+
+    # repeated sub-expressions differing only in output mode / output type / operand order
+    add("dup-same", [["sig", "p", ["proj", ["bin", "*", A, K(3)], "signal-X"]], ["sig", "q", ["proj", ["bin", "+", ["bin", "*", A, K(3)], B], "signal-Y"]]])
+    add("dup-outtype", [["sig", "p", ["proj", ["bin", "*", A, K(3)], "signal-X"]], ["sig", "q", ["proj", ["bin", "*", A, K(3)], "signal-Y"]]])
+    add("dup-operand-order", [["sig", "p", ["proj", ["bin", "-", A, B], "signal-X"]], ["sig", "q", ["proj", ["bin", "-", B, A], "signal-Y"]]])
+    add("dup-cond-mode", [["sig", "p", ["cond", ["cmp", ">", A, K(0)], A]], ["sig", "q", ["cond", ["cmp", ">", A, K(0)], K(1)]], ["sig", "s", ["proj", ["bin", "+", V("p"), V("q")], "signal-X"]]])
+    add("dup-cond-value", [["sig", "p", ["cond", ["cmp", ">", A, K(0)], B]], ["sig", "q", ["cond", ["cmp", ">", A, K(0)], C]], ["sig", "s", ["proj", ["bin", "+", V("p"), ["proj", V("q"), "signal-B"]], "signal-X"]]])
+    add("dup-cmp-const", [["sig", "p", ["proj", ["cmp", ">", A, K(5)], "signal-X"]], ["sig", "q", ["proj", ["cmp", ">", A, K(6)], "signal-Y"]]])
+    add("dup-cmp-op", [["sig", "p", ["proj", ["cmp", ">", A, K(5)], "signal-X"]], ["sig", "q", ["proj", ["cmp", ">=", A, K(5)], "signal-Y"]]])
+    add("dup-bundle-filter-mode", [["bun", "b0", ["bundle", [A, C]]], ["bun", "p", ["cond", ["cmp", ">", V("b0"), K(0)], V("b0")]], ["bun", "q", ["cond", ["cmp", ">", V("b0"), K(0)], K(1)]]])
+    add("dup-bundle-filter-mode-consumed", [["bun", "b0", ["bundle", [A, C]]], ["bun", "p", ["cond", ["cmp", ">", V("b0"), K(0)], V("b0")]], ["bun", "q", ["cond", ["cmp", ">", V("b0"), K(0)], K(1)]], ["bun", "p2", ["bin", "*", V("p"), K(3)]], ["bun", "q2", ["bin", "*", V("q"), K(5)]]])
+    add("dup-bundle-arith", [["bun", "b0", ["bundle", [A, C]]], ["bun", "p", ["bin", "*", V("b0"), K(2)]], ["bun", "q", ["bin", "*", V("b0"), K(2)]], ["bun", "r", ["bin", "+", V("q"), K(1)]]])
+    add("dup-multi-cond", [["sig", "p", ["cond", ["and", ["cmp", ">", A, K(0)], ["cmp", "<", B, K(9)]], C]], ["sig", "q", ["cond", ["or", ["cmp", ">", A, K(0)], ["cmp", "<", B, K(9)]], C]], ["sig", "s", ["proj", ["bin", "-", V("p"), V("q")], "signal-X"]]])
+    # folded values consumed by different consumer kinds
+    add("fold-operand", [["sig", "o", ["proj", ["bin", "+", A, ["bin", "*", K(6), K(7)]], "signal-X"]]])
+    add("fold-int-chain", [["int", "k", ["bin", "+", K(2), K(3)]], ["int", "j", ["bin", "*", V("k"), K(4)]], ["sig", "o", ["proj", ["bin", "-", A, V("j")], "signal-X"]]])
+    add("fold-sig-consts", [["sig", "k1", ["lit", "signal-K", K(6)]], ["sig", "k2", ["lit", "signal-K", K(7)]], ["sig", "o", ["proj", ["bin", "+", ["bin", "*", V("k1"), K(2)], A], "signal-X"]]])
+    add("fold-anon-const-arith", [["sig", "o", ["proj", ["bin", "+", ["bin", "*", ["lit", "signal-K", K(6)], K(7)], A], "signal-X"]]])
+    add("fold-enable", [["place", "l", "small-lamp", K(0), K(0), None], ["enable", "l", ["cmp", ">", A, ["bin", "*", K(3), K(4)]]]])
+    add("fold-enable-expr", [["place", "l", "small-lamp", K(0), K(0), None], ["enable", "l", ["cmp", ">", ["bin", "+", A, ["bin", "*", K(3), K(4)]], B]]])
+    add("fold-cond-value", [["sig", "o", ["proj", ["bin", "+", ["cond", ["cmp", ">", A, K(0)], ["bin", "-", K(0), K(1)]], B], "signal-X"]]])
+    add("fold-merge", [["sig", "o", ["bin", "+", ["lit", "signal-A", ["bin", "*", K(2), K(3)]], A]]])
+    add("fold-when", [["mem", "m", "signal-M"], ["write", "m", ["proj", A, "signal-M"], ["cmp", ">", B, ["bin", "+", K(1), K(2)]]], ["sig", "r0", ["read", "m"]]], K=4)
+    add("fold-when-const", [["mem", "m", "signal-M"], ["write", "m", ["proj", A, "signal-M"], ["cmp", ">", ["bin", "*", ["lit", "signal-K", K(2)], K(3)], B]], ["sig", "r0", ["read", "m"]]], K=4)
+    add("fold-latch", [["mem", "m", "signal-L"], ["latch", "m", K(1), ["cmp", "<", A, ["bin", "*", K(4), K(5)]], ["cmp", ">=", A, ["bin", "*", K(8), K(10)]], "sr"], ["sig", "r0", ["read", "m"]]], K=4)
+    add("fold-latch-value", [["mem", "m", "signal-L"], ["latch", "m", ["bin", "+", K(2), K(3)], ["cmp", "<", A, K(20)], ["cmp", ">=", A, K(80)], "sr"], ["sig", "r0", ["read", "m"]]], K=4)
+    add("mem-basic", [["mem", "m", "signal-M"], ["write", "m", ["proj", ["bin", "*", A, K(2)], "signal-M"], ["cmp", ">", B, K(0)]], ["sig", "r0", ["read", "m"]], ["sig", "r1", ["proj", ["bin", "+", ["read", "m"], K(1)], "signal-X"]]], K=4)
+    # fan-out 2..12 (spanning-tree wiring)
+    for n in (2, 4, 8, 12):
+        body = [["sig", "m", ["bin", "*", A, K(3)]]]
+        for i in range(n):
+            body.append(["sig", f"o{i}", ["proj", ["bin", "+", V("m"), K(i + 1)], f"signal-{chr(ord('C') + i)}"]])
+        add(f"fanout-{n}", body)
+    body = []
+    for i in range(6):
+        body += [["place", f"l{i}", "small-lamp", K(2 * i), K(0), None], ["enable", f"l{i}", ["cmp", ">", ["bin", "+", A, B], K(i)]]]
+    add("fanout-lamps", body)
+    body = [["sig", "m", ["bin", "+", A, B]]]
+    for i in range(5):
+        body += [["place", f"l{i}", "small-lamp", K(3 * i), K(0), None], ["enable", f"l{i}", ["cmp", ">", V("m"), K(i * 10)]]]
+    add("fanout-shared-lamps", body)
+    return progs
+
+
+def corpus_c10(tier):
+    cases = fam_opt_fixed()
+    n = 25 if tier == "quick" else 150
+    for i in range(n):
+        c = fam_expr(2000 + i)
+        cases.append({"id": f"oexpr-{i:04d}", "family": "oexpr", "kind": "equiv", "pairs": _opt_pair(c["stmts"])})
+    for i in range(n // 2):
+        c = fam_bundle(2000 + i)
+        cases.append({"id": f"obundle-{i:04d}", "family": "obundle", "kind": "equiv", "pairs": _opt_pair(c["stmts"])})
+    for i in range(n // 3):
+        c = fam_entity(2000 + i)
+        cases.append({"id": f"oentity-{i:04d}", "family": "oentity", "kind": "equiv", "pairs": _opt_pair(c["stmts"])})
+    for i in range(n // 4):
+        c = fam_mem(2000 + i)
+        cases.append({"id": f"omem-{i:04d}", "family": "omem", "kind": "equiv", "pairs": _opt_pair(c["stmts"]), "params": {"K": 4}})
+    for i in range(n // 4):
+        c = fam_latch(2000 + i)
+        cases.append({"id": f"olatch-{i:04d}", "family": "olatch", "kind": "equiv", "pairs": _opt_pair(c["stmts"]), "params": {"K": 4, "bool_inputs": c["params"]["bool_inputs"]}})
+    return cases
+
+
+def _pq_case(cid, P, Q, rnd, limit, K=None, bools=(), dy=9):
+    from .gen import interleavings, rename_prog, shift_places
+
+    Pn = rename_prog(P, "p_")
+    Qn = shift_places(rename_prog(Q, "q_"), 0, dy)
+    Qn = [["input", s[1], s[2], s[3] + 2000] if s[0] == "input" else s for s in Qn]  # distinct sentinels
+    pairs = []
+    for bi, build in enumerate((OPT, NOOPT)):
+        for ii, merged in enumerate(interleavings(Pn, Qn, limit, rnd)):
+            pairs.append({"a": {"stmts": merged, "build": build, "label": f"PQ{ii}"}, "b": {"stmts": Pn, "build": build, "label": "P"}, "tag": f"{build['tag']}/i{ii}/P"})
+            pairs.append({"a": {"stmts": merged, "build": build, "label": f"PQ{ii}"}, "b": {"stmts": Qn, "build": build, "label": "Q"}, "tag": f"{build['tag']}/i{ii}/Q"})
+    params = {}
+    if K:
+        params["K"] = K
+        params["bool_inputs"] = ["p_" + b for b in bools] + ["q_" + b for b in bools]
+    return {"id": cid, "family": "pq", "kind": "equiv", "pairs": pairs, "params": params}
+
+
+def corpus_c12(tier):
+    limit = 3 if tier == "quick" else 6
+    n = 12 if tier == "quick" else 50
+    cases = []
+    fx = {c["id"]: c for c in fam_expr_fixed()}
+    pairs_fixed = [("fixed-op-+", "fixed-op-*"), ("fixed-cmp-<", "fixed-cond->="), ("fixed-reuse", "fixed-prec1"), ("fixed-clamp", "fixed-sel-pattern"), ("fixed-and", "fixed-multi-out"), ("fixed-same-type", "fixed-left-type")]
+    for a, b in pairs_fixed:
+        rnd = random.Random(f"pq-{a}-{b}")
+        cases.append(_pq_case(f"pq-{a[6:]}-{b[6:]}", fx[a]["stmts"], fx[b]["stmts"], rnd, limit))
+    # far-apart user entities: relays are needed, P's and Q's routes run side by side
+    A, B = V("a"), V("b")
+    ins2 = [["input", "a", "signal-A", 10007], ["input", "b", "signal-B", 10009]]
+    for nm, xs in (("far20", (20, -20)), ("far35", (35, -12)), ("far-row", (14, 28, -14))):
+        body = []
+        for j, x in enumerate(xs):
+            body += [["place", f"l{j}", "small-lamp", K(x), K(0), None], ["enable", f"l{j}", ["cmp", ">", ["bin", "+", A, B], K(j + 5)] if j % 2 else ["cmp", ">", A, K(j + 5)]]]
+        body.append(["sig", "o", ["proj", ["bin", "-", A, B], "signal-X"]])
+        rnd = random.Random(f"pq-{nm}")
+        cases.append(_pq_case(f"pq-{nm}", ins2 + body, ins2 + body, rnd, 2, dy=1))
+    for i in range(n):
+        rnd = random.Random(f"pq-{i}")
+        kind = rnd.choice(["ee", "ee", "eb", "en", "bb", "nn"])
+        pick = {"e": lambda j: fam_expr(3000 + j), "b": lambda j: fam_bundle(3000 + j), "n": lambda j: fam_entity(3000 + j)}
+        P = pick[kind[0]](2 * i)["stmts"]
+        Q = pick[kind[1]](2 * i + 1)["stmts"]
+        cases.append(_pq_case(f"pq-{i:04d}", P, Q, rnd, limit))
+    for i in range(max(2, n // 6)):
+        rnd = random.Random(f"pqm-{i}")
+        P = fam_mem(3000 + 2 * i)["stmts"]
+        Q = fam_mem(3001 + 2 * i)["stmts"]
+        c = _pq_case(f"pqmem-{i:04d}", P, Q, rnd, 2, K=3)
+        cases.append(c)
+    return cases
+
+
+# ======================================================================================
+#  C13 fresh signals
+# ======================================================================================
+
+FRESH_TYPES = ["signal-heart", "signal-star", "signal-check", "signal-deny", "signal-alert", "signal-pink", "signal-cyan", "signal-grey"]
+
+
+def _fresh_twin(stmts):
+    """give every untyped declared input a fresh, otherwise unused explicit type"""
+    out, i = [], 0
+    for s in stmts:
+        if s[0] == "input" and s[2] is None:
+            out.append(["input", s[1], FRESH_TYPES[i % len(FRESH_TYPES)] if i < len(FRESH_TYPES) else f"signal-{i % 10}", s[3]])
+            i += 1
+        else:
+            out.append(s)
+    return out
+
+
+def _fresh_case(cid, stmts, fam="fresh"):
+    pairs = []
+    for b in (OPT, NOOPT):
+        pairs.append({"a": {"stmts": stmts, "build": b, "label": "untyped"}, "b": {"stmts": _fresh_twin(stmts), "build": b, "label": "renamed"}, "tag": f"{b['tag']}/rename"})
+    return {"id": cid, "family": fam, "stmts": stmts, "kind": "fresh", "pairs": pairs}
+
+
+def fam_fresh_fixed():
+    U, W2 = V("u"), V("u2")
+    progs = []
+
+    def add(name, ins, body):
+        progs.append(_fresh_case(f"ffixed-{name}", [["input"] + list(i) for i in ins] + body, fam="fixed"))
+
+    un = [("u", None, 10061), ("u2", None, 10067)]
+    for nm, ex in (("late", [("x", "signal-S", 10007), ("y", "signal-T", 10009)]), ("first-letters", [("x", "signal-A", 10007), ("y", "signal-B", 10009)]), ("digits", [("x", "signal-0", 10007), ("y", "signal-1", 10009)]), ("items", [("x", "iron-plate", 10007), ("y", "water", 10009)])):
+        X, Y = V("x"), V("y")
+        add(f"{nm}-arith", ex + un, [["sig", "o", ["proj", ["bin", "+", ["bin", "*", U, X], W2], "signal-X"]], ["sig", "p", ["proj", ["bin", "-", Y, U], "signal-Y"]]])
+        add(f"{nm}-cmp", ex + un, [["sig", "o", ["proj", ["cond", ["cmp", ">", U, X], Y], "signal-X"]], ["sig", "p", ["proj", ["cmp", "<", W2, Y], "signal-Y"]]])
+        add(f"{nm}-enable", ex + un, [["place", "l", "small-lamp", K(0), K(0), None], ["enable", "l", ["cmp", ">", ["bin", "+", U, X], K(5)]], ["place", "l2", "small-lamp", K(2), K(0), None], ["enable", "l2", ["cmp", ">", U, K(7)]]])
+        add(f"{nm}-mix-reuse", ex + un, [["sig", "m", ["bin", "+", U, K(1)]], ["sig", "o", ["proj", ["bin", "*", V("m"), X], "signal-X"]], ["sig", "p", ["proj", ["bin", "+", V("m"), W2], "signal-Y"]]])
+    # many untyped values (more than the 26 letters)
+    for n in (10, 27, 37, 45):
+        ins = [(f"u{i}", None, 10100 + 7 * i) for i in range(n)] + [("x", "signal-S", 10007)]
+        body = []
+        acc = V("x")
+        for i in range(n):
+            acc = ["bin", "+", acc, V(f"u{i}")] if i % 2 == 0 else ["bin", "-", acc, V(f"u{i}")]
+            if i % 6 == 5:
+                body.append(["sig", f"s{i}", ["proj", acc, "signal-S"]])
+                acc = V(f"s{i}")
+        body.append(["sig", "o", ["proj", acc, "signal-X"]])
+        add(f"many-{n}", ins, body)
+    return progs
+
+
+def fam_fresh(index):
+    rnd = random.Random(f"fresh-{index}")
+    pool = [("a", rnd.choice(["signal-A", "signal-S", "signal-C", "signal-1"]), 10007), ("b", rnd.choice(["signal-B", "signal-T", "iron-plate"]), 10009), ("u", None, 10061), ("u2", None, 10067), ("u3", None, 10069)]
+    ins = [pool[0]] + rnd.sample(pool[1:], rnd.choice([2, 3, 4]))
+    if not any(t is None for (_n, t, _d) in ins):
+        ins.append(pool[2])
+    stmts = [["input", n, t, d] for (n, t, d) in ins]
+    g = ExprGen(rnd, [n for (n, _t, _d) in ins])
+    for i in range(rnd.choice([1, 2])):
+        stmts.append(["sig", f"o{i}", ["proj", g.sig(rnd.choice([1, 2])), OUT_SIGS[i]]])
+    return _fresh_case(f"fresh-{index:04d}", stmts)
+
+
+def corpus_c13(tier):
+    n = 25 if tier == "quick" else 150
+    return fam_fresh_fixed() + [fam_fresh(i) for i in range(n)]
+
+
+# ======================================================================================
+#  C15 functions, C16 loops  (reference = the generator's own call-by-substitution / unrolling interpreter)
+# ======================================================================================
+
+
+def fam_func_fixed():
+    A, B, C = V("a"), V("b"), V("c")
+    ins3 = [["input", "a", "signal-A", 10007], ["input", "b", "signal-B", 10009], ["input", "c", "iron-plate", 10037]]
+    progs = []
+
+    def add(name, body, kind="stateless", **params):
+        params.setdefault("places", True)
+        progs.append({"id": f"ufixed-{name}", "family": "fixed", "stmts": list(ins3) + body, "kind": kind, "params": params})
+
+    F = lambda name, params, body, ret: ["func", name, [list(p) for p in params], body, ret]  # noqa: E731
+    X, Y, Kk = V("x"), V("y"), V("k")
+    add("sig-param", [F("f", [("Signal", "x")], [], ["bin", "+", ["bin", "*", X, K(2)], K(1)]), ["sig", "o", ["proj", ["call", "f", [A]], "signal-X"]]])
+    add("two-calls", [F("f", [("Signal", "x")], [], ["bin", "+", ["bin", "*", X, K(2)], K(1)]), ["sig", "o", ["proj", ["call", "f", [A]], "signal-X"]], ["sig", "p", ["proj", ["call", "f", [B]], "signal-Y"]]])
+    add("int-param", [F("f", [("Signal", "x"), ("int", "k")], [], ["bin", "*", X, Kk]), ["sig", "o", ["proj", ["call", "f", [A, K(7)]], "signal-X"]], ["sig", "p", ["proj", ["call", "f", [B, K(-3)]], "signal-Y"]]])
+    add("int-to-signal", [F("f", [("Signal", "x"), ("Signal", "y")], [], ["bin", "+", X, Y]), ["sig", "o", ["proj", ["call", "f", [A, K(5)]], "signal-X"]]])
+    add("expr-arg", [F("f", [("Signal", "x")], [], ["bin", "*", X, X]), ["sig", "o", ["proj", ["call", "f", [["bin", "+", A, B]]], "signal-X"]]])
+    add("locals", [F("f", [("Signal", "x")], [["sig", "t", ["bin", "+", X, K(1)]], ["sig", "u", ["bin", "*", V("t"), V("t")]]], ["bin", "-", V("u"), X]), ["sig", "o", ["proj", ["call", "f", [A]], "signal-X"]], ["sig", "p", ["proj", ["call", "f", [C]], "signal-Y"]]])
+    add("local-shadows-outer", [["sig", "t", ["bin", "*", A, K(100)]], F("f", [("Signal", "x")], [["sig", "t", ["bin", "+", X, K(1)]]], ["bin", "*", V("t"), K(2)]), ["sig", "o", ["proj", ["call", "f", [B]], "signal-X"]], ["sig", "p", ["proj", ["bin", "+", V("t"), K(0)], "signal-Y"]]])
+    add("local-shadows-caller-param", [F("g", [("Signal", "v")], [["sig", "x", ["bin", "+", V("v"), K(1)]]], ["bin", "*", V("x"), K(3)]), F("f", [("Signal", "x")], [], ["bin", "+", ["call", "g", [B]], X]), ["sig", "o", ["proj", ["call", "f", [A]], "signal-X"]]])
+    add("nested", [F("g", [("Signal", "x")], [], ["bin", "+", X, K(1)]), F("f", [("Signal", "x")], [], ["bin", "*", ["call", "g", [X]], ["call", "g", [["bin", "+", X, K(5)]]]]), ["sig", "o", ["proj", ["call", "f", [A]], "signal-X"]]])
+    add("nested-same-param-name", [F("g", [("Signal", "x")], [], ["bin", "-", X, K(1)]), F("f", [("Signal", "x")], [["sig", "y", ["call", "g", [["bin", "*", X, K(2)]]]]], ["bin", "+", V("y"), X]), ["sig", "o", ["proj", ["call", "f", [A]], "signal-X"]]])
+    add("param-type-actual", [F("f", [("Signal", "x")], [], ["bin", "+", X, K(1)]), ["sig", "o", ["call", "f", [C]]]])
+    add("cond-in-func", [F("mx", [("Signal", "x"), ("Signal", "y")], [], ["bin", "+", ["cond", ["cmp", ">=", X, Y], X], ["cond", ["cmp", "<", X, Y], Y]]), ["sig", "o", ["proj", ["call", "mx", [A, B]], "signal-X"]]])
+    add("call-in-loop", [F("f", [("Signal", "x"), ("int", "k")], [], ["bin", "+", X, Kk]), ["for", "i", ["range", 0, 3, None], [["place", "l", "small-lamp", V("i"), K(0), None], ["enable", "l", ["cmp", ">", ["call", "f", [A, V("i")]], K(5)]]]]])
+    add("place-in-func", [F("mk", [("int", "k"), ("Signal", "x")], [["place", "l", "small-lamp", Kk, K(2), None], ["enable", "l", ["cmp", ">", X, Kk]]], X), ["sig", "o", ["proj", ["call", "mk", [K(0), A]], "signal-X"]], ["sig", "p", ["proj", ["call", "mk", [K(4), B]], "signal-Y"]]])
+    add("entity-param", [F("drive", [("Entity", "e"), ("Signal", "x")], [["enable", "e", ["cmp", ">", X, K(3)]]], X), ["place", "l1", "small-lamp", K(0), K(0), None], ["place", "l2", "small-lamp", K(3), K(0), None], ["sig", "o", ["proj", ["call", "drive", [V("l1"), A]], "signal-X"]], ["sig", "p", ["proj", ["call", "drive", [V("l2"), B]], "signal-Y"]]])
+    add("local-memory-per-call", [F("hold", [("Signal", "x"), ("Signal", "en")], [["mem", "m", "signal-M"], ["write", "m", ["proj", X, "signal-M"], ["cmp", ">", V("en"), K(0)]]], ["read", "m"]), ["sig", "o", ["proj", ["call", "hold", [A, C]], "signal-X"]], ["sig", "p", ["proj", ["call", "hold", [B, C]], "signal-Y"]]], kind="history", K=3, places=False)
+    return progs
+
+
+def fam_func(index):
+    rnd = random.Random(f"func-{index}")
+    ins3 = [["input", "a", "signal-A", 10007], ["input", "b", "signal-B", 10009], ["input", "c", "iron-plate", 10037]]
+    nparams = rnd.choice([1, 2, 2])
+    params = [["Signal", "x"]] + ([[rnd.choice(["Signal", "int"]), "y"]] if nparams == 2 else [])
+    g = ExprGen(rnd, ["x"] + (["y"] if nparams == 2 and params[1][0] == "Signal" else []))
+    body = []
+    if rnd.random() < 0.5:
+        body.append(["sig", "t", g.sig(1)])
+        g.names.append("t")
+    ret = g.sig(rnd.choice([1, 2]))
+    if nparams == 2 and params[1][0] == "int" and rnd.random() < 0.7:
+        ret = ["bin", rnd.choice(["+", "*", "-"]), ret, V("y")]
+    stmts = list(ins3) + [["func", "f", params, body, ret]]
+    ncalls = rnd.choice([1, 2, 2, 3])
+    outer = ExprGen(rnd, ["a", "b", "c"])
+    for i in range(ncalls):
+        args = [outer.sig(rnd.choice([0, 0, 1]))]
+        if nparams == 2:
+            args.append(K(rnd.choice(SMALL)) if params[1][0] == "int" or rnd.random() < 0.3 else outer.sig(0))
+        stmts.append(["sig", f"o{i}", ["proj", ["call", "f", args], OUT_SIGS[i]]])
+    return {"id": f"func-{index:04d}", "family": "func", "stmts": stmts, "kind": "stateless", "params": {"places": True}}
+
+
+def corpus_c15(tier):
+    n = 25 if tier == "quick" else 150
+    return fam_func_fixed() + [fam_func(i) for i in range(n)]
+
+
+def fam_loop16_fixed():
+    A, B = V("a"), V("b")
+    ins = [["input", "a", "signal-A", 10007], ["input", "b", "signal-B", 10009]]
+    progs = []
+
+    def add(name, body, **params):
+        params.setdefault("places", True)
+        progs.append({"id": f"pfixed-{name}", "family": "fixed", "stmts": list(ins) + body, "kind": "stateless", "params": params})
+
+    I = V("i")
+    lamp_body = lambda xe, ye=K(0), cond=None: [["place", "l", "small-lamp", xe, ye, None], ["enable", "l", cond or ["cmp", ">", A, I]]]  # noqa: E731
+    for nm, it in {
+        "asc": ["range", 0, 5, None], "asc-step2": ["range", 0, 10, 2], "asc-nondiv": ["range", 0, 10, 3], "desc": ["range", 10, 0, -2], "desc-nondiv": ["range", 10, 0, -3],
+        "desc-auto": ["range", 5, 0, None], "neg": ["range", -4, 3, None], "neg-desc": ["range", 3, -4, -2], "empty": ["range", 3, 3, None], "empty-wrong-dir": ["range", 0, 5, -1],
+        "empty-wrong-dir2": ["range", 5, 0, 1], "single": ["range", 4, 5, None], "list": ["list", [1, 3, 5, 7]], "list-unordered": ["list", [5, -1, 3]], "list-empty": ["list", []], "list-single": ["list", [2]],
+    }.items():
+        add(nm, [["for", "i", it, lamp_body(I)]])
+    add("var-bounds", [["int", "n", K(4)], ["int", "s", K(2)], ["for", "i", ["range", 0, "n", None], lamp_body(I)], ["for", "j", ["range", "n", 10, "s"], [["place", "m", "small-lamp", V("j"), K(2), None], ["enable", "m", ["cmp", ">", B, V("j")]]]]])
+    add("iter-arith", [["for", "i", ["range", 0, 4, None], [["place", "l", "small-lamp", ["bin", "*", I, K(2)], K(0), None], ["place", "l2", "small-lamp", ["bin", "+", ["bin", "*", I, K(2)], K(1)], K(0), None], ["enable", "l", ["cmp", ">", A, ["bin", "*", I, K(3)]]], ["enable", "l2", ["cmp", ">", ["bin", "+", A, I], B]]]]])
+    add("iter-literal-value", [["for", "i", ["range", 1, 4, None], [["sig", "k", ["lit", "signal-K", I]], ["place", "l", "small-lamp", I, K(0), None], ["enable", "l", ["cmp", ">", ["bin", "*", V("k"), A], K(10)]]]]])
+    add("nested2", [["for", "i", ["range", 0, 3, None], [["for", "j", ["range", 0, 2, None], [["place", "l", "small-lamp", I, V("j"), None], ["enable", "l", ["cmp", ">", A, ["bin", "+", ["bin", "*", I, K(2)], V("j")]]]]]]]])
+    add("nested3", [["for", "i", ["range", 0, 2, None], [["for", "j", ["range", 0, 2, None], [["for", "k", ["list", [0, 3]], [["place", "l", "small-lamp", ["bin", "+", ["bin", "*", I, K(2)], V("j")], V("k"), None], ["enable", "l", ["cmp", ">", A, ["bin", "+", ["bin", "+", I, V("j")], V("k")]]]]]]]]]])
+    add("body-name-local", [["sig", "t", ["bin", "*", A, K(100)]], ["for", "i", ["range", 0, 2, None], [["sig", "t", ["bin", "+", A, I]], ["place", "l", "small-lamp", I, K(0), None], ["enable", "l", ["cmp", ">", V("t"), K(5)]]]], ["sig", "o", ["proj", ["bin", "+", V("t"), K(1)], "signal-X"]]])
+    add("iter-shadows-int", [["int", "i", K(7)], ["for", "i", ["range", 0, 2, None], lamp_body(I)], ["sig", "o", ["proj", ["bin", "*", A, I], "signal-X"]]])
+    add("call-in-body", [["func", "f", [["Signal", "x"], ["int", "k"]], [], ["bin", "+", V("x"), V("k")]], ["for", "i", ["range", 0, 3, None], [["place", "l", "small-lamp", I, K(0), None], ["enable", "l", ["cmp", ">", ["call", "f", [A, I]], K(3)]]]]])
+    add("outer-used-in-body", [["sig", "m", ["bin", "+", A, B]], ["for", "i", ["range", 0, 4, None], [["place", "l", "small-lamp", I, K(0), None], ["enable", "l", ["cmp", ">=", V("m"), I]]]]])
+    add("mem-in-body", [["for", "i", ["range", 0, 2, None], [["mem", "m", "signal-M"], ["write", "m", ["proj", ["bin", "+", A, I], "signal-M"], ["cmp", ">", B, I]], ["place", "l", "small-lamp", I, K(0), None], ["enable", "l", ["cmp", ">", ["read", "m"], K(3)]]]]], places=True, kind_override="history")
+    for c in progs:
+        if c["params"].pop("kind_override", None):
+            c["kind"] = "history"
+            c["params"]["K"] = 3
+    return progs
+
+
+def fam_loop16(index):
+    rnd = random.Random(f"loop16-{index}")
+    ins = [["input", "a", "signal-A", 10007], ["input", "b", "signal-B", 10009]]
+    a = rnd.randint(-6, 6)
+    b = rnd.randint(-6, 8)
+    st = rnd.choice([None, None, 1, 2, 3, -1, -2, -3])
+    it = ["range", a, b, st] if rnd.random() < 0.8 else ["list", [rnd.randint(-5, 9) for _ in range(rnd.randint(0, 4))]]
+    I = V("i")
+    xe = rnd.choice([I, ["bin", "*", I, K(2)], ["bin", "+", I, K(10)], ["bin", "-", K(0), I]])
+    cond_rhs = rnd.choice([I, ["bin", "*", I, K(3)], ["bin", "+", I, K(-2)], K(4)])
+    if it[0] == "list":
+        # duplicate list values would stack entities on one tile; keep them distinct
+        it = ["list", sorted(set(it[1]), key=it[1].index)]
+    body = [["place", "l", "small-lamp", xe, K(0), None], ["enable", "l", ["cmp", rnd.choice(CMPS), rnd.choice([V("a"), ["bin", "+", V("a"), V("b")], ["bin", "*", V("a"), I]]), cond_rhs]]]
+    return {"id": f"loop16-{index:04d}", "family": "loop16", "stmts": ins + [["for", "i", it, body]], "kind": "stateless", "params": {"places": True}}
+
+
+def corpus_c16(tier):
+    n = 25 if tier == "quick" else 150
+    return fam_loop16_fixed() + [fam_loop16(i) for i in range(n)]
